@@ -8,7 +8,7 @@ LEVEL_TEXT = (
     "_load_minimal_soln_cat cuts it back at the cumulative lengths (np.cumsum / np.split library contracts, cut positions ordered: an obligation); the two round-trip LEMMAS "
     "(same count, order, connection structure, solution, start, end) follow from the contracts alone; serialize() selects the minimal format exactly when a threshold is set and "
     "0 < len >= threshold, else the full one, for EVERY value of the module-global threshold, and calls _serialize_minimal only within its precondition; load() dispatches each minimal format to "
-    "its own loader. NOT proved (muutils/zanj reflection and real files are outside the subset): the full format, configuration equality, collected-metadata counts, files, collections - "
+    "its own loader; a collection configuration stores one entry per member configuration in member order (each the member's own serialize()) and restores one per stored entry in stored order through MazeDatasetConfig.load (the two field lambdas, read as def f(x): return <expression>). NOT proved (muutils/zanj reflection and real files are outside the subset): the full format, configuration equality, collected-metadata counts, files, collections - "
     "decided by the bounded stand-in: round trips through all three formats, all threshold settings and real .zanj files for enumerated datasets (all generators, mixed solution lengths incl. "
     "length-1/2, with/without metadata, EMPTY datasets), and collections member by member (own and copied member configs, empty members); arrays compared with np.array_equal."
 )
@@ -16,12 +16,14 @@ LEVEL_NOTE = ("Trusted: pyvc encoding; muutils/zanj internals (json_serialize / 
               "initialiser of SolvedMaze's base class (SolvedMaze.__init__ and MazeDataset.__init__ themselves are verified against their bodies); torch Dataset.__init__ has no effect; np.cumsum / np.split library contracts; lemmas psum_monotone and psum_congruence (simple inductions). "
               "Configuration equality is judged on the configuration the dataset has after serialize() returned (minimal formats collect metadata in place: documented side effect).")
 TECHNIQUE = "contract-based deductive verification of both minimal codecs, their round-trip lemmas, format selection and dispatch (loop invariants, library contracts, z3) + bounded run-time checking for the full format, files, metadata, configs and collections"
-CONTRACT_MODULES = ["contracts.serialization"]
+CONTRACT_MODULES = ["contracts.serialization", "contracts.collection"]
 MD = "maze_dataset/dataset/maze_dataset.py"
 L = "/verif/contracts/lemmas_src.py"
 PROVE = [(MD, "MazeDataset._serialize_minimal"), (MD, "MazeDataset._load_minimal"), (L, "minimal_roundtrip"),
          (MD, "MazeDataset._serialize_minimal_soln_cat"), (MD, "MazeDataset._load_minimal_soln_cat"), (L, "soln_cat_roundtrip"),
-         (MD, "MazeDataset.serialize"), (MD, "MazeDataset.load"), (MD, "MazeDataset.__init__"), ("maze_dataset/maze/lattice_maze.py", "SolvedMaze.__init__")]
+         (MD, "MazeDataset.serialize"), (MD, "MazeDataset.load"), (MD, "MazeDataset.__init__"), ("maze_dataset/maze/lattice_maze.py", "SolvedMaze.__init__"),
+         ("maze_dataset/dataset/collected_dataset.py", "MazeDatasetCollectionConfig.maze_dataset_configs@serialization_fn"),
+         ("maze_dataset/dataset/collected_dataset.py", "MazeDatasetCollectionConfig.maze_dataset_configs@loading_fn")]
 ASSUMPTIONS = ["assumed contract (muutils reflection, not verified against a body): MazeDataset._serialize_full; the branch of the minimal "
                "serializers that first collects generation metadata through the filter machinery is outside the verified subset (precondition: metadata already collected or absent)"]
 EXPLANATION = "see DESIGN.md C05"
